@@ -153,10 +153,11 @@ fn serialize_cmap(
     retained_encoding_records: &[(usize, &EncodingRecord)],
     drop_format_4: bool,
 ) -> Result<(), SerializeErrorFlags> {
+    // taken before the header is allocated: the retry without format 4 subtables allocates it again
+    let snap = s.snapshot();
     // allocate header: version + numTables
     s.allocate_size(HEADER_SIZE, false)?;
 
-    let snap = s.snapshot();
     let mut format12_objidx = None;
     //TODO: add support for cmap_cache in plan accelerator
     let mut unicodes_cache =
@@ -187,12 +188,13 @@ fn serialize_cmap(
                 .filter_map(|(cp, gid)| unicodes_set.contains(*cp).then_some((*cp, *gid)))
                 .collect();
 
-            serialize_encoding_record(record, &subtable, s, &cp_to_new_gid_list, plan)?;
+            let r = serialize_encoding_record(record, &subtable, s, &cp_to_new_gid_list, plan);
             if s.in_error() && s.only_overflow() {
                 // cmap4 overflowed, reset and retry serialization without format 4 subtables.
                 s.revert_snapshot(snap);
                 return serialize_cmap(cmap, s, plan, retained_encoding_records, true);
             }
+            r?;
         } else if format == 12 {
             let Some(unicodes_set) =
                 unicodes_cache.set_for(*rec_idx, &subtable, plan.font_num_glyphs)
@@ -256,7 +258,11 @@ fn serialize_encoding_record(
 
     s.push()?;
     let init_len = s.length();
-    cmap_subtable.serialize(s, plan, cp_to_new_gid_list)?;
+    if let Err(e) = cmap_subtable.serialize(s, plan, cp_to_new_gid_list) {
+        // close the subtable object, so that the caller can go back to its snapshot
+        s.pop_discard();
+        return Err(e);
+    }
     let mut obj_idx = None;
     if s.length() > init_len {
         obj_idx = s.pop_pack(true);
